@@ -14,6 +14,10 @@ Parameter block `P` = `<A> <C> <MIXMUL> <MIXSHIFT> <PRIOBITS> <SEED>` (decimal; 
 * `conc <disc> <k> <m> <opseed> P`         → `k` threads × `m` draws under a pseudo-random schedule derived
                                              from `opseed` (for the split disciplines: a pseudo-random *serial*
                                              schedule — there the model has no schedule-independent outcome)
+* `long <disc> <k> <m> <opseed> P`         → (wave 4) 2 long-lived threads × `m` draws and a crowd of `k` threads × 1 draw, under the
+                                             schedule the harness constructs: the first `m/2` draws of each long-lived thread,
+                                             the crowd one after the other, the remaining draws of the long-lived threads
+                                             (raw: the long-lived threads one by one, the crowd's draws as ONE stream)
 * `sched <disc> P ; m0 m1 … ; i0 i1 …`     → programs `m0 m1 …` under exactly the schedule `i0 i1 …`
 * `fsched <disc> P ; m0 m1 … ; i0 i1 …`    → the same on the fine-grained system (get/set, lock/read/write/unlock,
                                              load/CAS/retry); the answer is computed from `FState.abs`
@@ -65,6 +69,33 @@ def runLine (D : Discipline) (p : LcgParams) (seed : UInt64) (blind : Bool) (pro
   let rs := (List.range progs.length).map (results st)
   answer3 (showRun D blind hist rs) (viewRun D g seed progs hist rs) "ok"
 
+/-- number of long-lived threads of a `long` case (`LONG_LIVED` in the harness) -/
+def longLived : Nat := 2
+
+/-- `long`: programs and the (serial) order of draws the harness constructs -/
+def longProgs (k m : Nat) : List Nat := List.replicate longLived m ++ List.replicate k 1
+
+def longOrder (k m : Nat) : List Nat :=
+  let firstHalf := (List.range longLived).flatMap (fun i => List.replicate (m / 2) i)
+  let crowd := (List.range k).map (· + longLived)
+  let rest := (List.range longLived).flatMap (fun i => List.replicate (m - m / 2) i)
+  firstHalf ++ crowd ++ rest
+
+/-- as `showRun`, the crowd's results (one per thread, in thread order) shown as one stream -/
+def showRunLong (D : Discipline) (blind : Bool) (hist : List UInt64) (rs : List (List UInt64)) : String :=
+  if D.isShared then showRun D blind hist rs
+  else
+    let one := fun (r : List UInt64) => if blind then toString r.length else summ r
+    "T " ++ ";".intercalate ((rs.take longLived).map one ++ ["crowd:" ++ one (rs.drop longLived).flatten])
+
+def runLong (D : Discipline) (p : LcgParams) (seed : UInt64) (blind : Bool) (k m : Nat) : String :=
+  let g := lcgGen p
+  let progs := longProgs k m
+  let st := exec D g (init seed progs) (expand D (longOrder k m))
+  let hist := history st
+  let rs := (List.range progs.length).map (results st)
+  answer3 (showRunLong D blind hist rs) (viewRun D g seed progs hist rs) "ok"
+
 def runFine (D : Discipline) (p : LcgParams) (seed : UInt64) (blind : Bool) (progs : List Nat) (sched : List Nat) : String :=
   let g := lcgGen p
   let st := (fexec D g (finit seed progs) sched).abs
@@ -86,6 +117,10 @@ def handle (line : String) : String :=
         let st := exec .threadLocal g (init seed [n]) (List.replicate n 0)
         answer (showStream (results st 0)) (showStream (stream g seed n))
       | _, _ => badLine line
+    | "long" :: d :: rest =>
+      match Discipline.parse? d, parseNats? (rest.take 3), parseParams? (rest.drop 3) with
+      | some D, some [k, m, _], some (p, seed, blind) => runLong D p seed blind k m
+      | _, _, _ => badLine line
     | "tie" :: d :: rest | "deep" :: d :: rest | "render" :: d :: rest | "stack" :: d :: rest | "panic" :: d :: rest
     | "exit" :: d :: rest | "conc" :: d :: rest =>
       match Discipline.parse? d, parseNats? (rest.take 3), parseParams? (rest.drop 3) with
